@@ -50,6 +50,12 @@ def workload(draw, pool_stmts):
     stmts = [base[i] for i in idx]
     entry = draw(st.sampled_from(["stream_frames", "flat_stream_to_frames", "steps", "steps"])) if phys != "GRAPHS" else "stream_frames"
     bindings = None
+    if integration == "rdflib" and phys == "TRIPLES" and entry == "stream_frames" and draw(st.booleans()):
+        # an rdflib Graph with ONE triple (so that container order cannot matter) and several bindings, declarations on
+        entry = "stream_frames_rdflib_graph"
+        stmts = stmts[:1]
+        names = draw(st.lists(st.sampled_from(["ex", "a", "b", "ns2", "zz", "p1", "q"]), min_size=2, max_size=5, unique=True))
+        bindings = [[n, "http://ns-%s.example/%s" % (n, "x#" if i % 2 else "")] for i, n in enumerate(names)]
     if integration == "generic" and entry == "stream_frames" and draw(st.booleans()):
         # a generic sink (ordered) with several namespace bindings, declarations switched on
         entry = "stream_frames_sink"
@@ -148,7 +154,17 @@ def make_gen(w, shared=None):
             f = stream.flow.to_stream_frame()
             yield f.SerializeToString(deterministic=True).hex() if f is not None else "-"
         return g()
-    if w["entry"] == "stream_frames_sink":
+    if w["entry"] == "stream_frames_rdflib_graph":
+        import rdflib
+
+        g = rdflib.Graph(bind_namespaces="none")
+        for s_ in w["statements"]:
+            g.add(tuple(T.to_rdflib(t) for t in s_[:3]))
+        for p_, ns in w.get("bindings") or ():
+            g.bind(p_, rdflib.URIRef(ns))
+        stream = stream_for(w, shared)
+        frames = ser.stream_frames(stream, g)
+    elif w["entry"] == "stream_frames_sink":
         stream = stream_for(w, shared)
         frames = ser.stream_frames(stream, pyj.generic_sink(w["statements"], w.get("bindings") or ()))
     elif w["entry"] == "stream_frames":
@@ -448,6 +464,15 @@ def _run_shard(spec) -> Acc:
         c = {**c, "kind": spec["part"], "workloads": [w for w in c["workloads"] if w["type"] == "ser"] or c["workloads"]}
         if spec["part"] == "threads":
             c["reps"] = spec.get("reps", 30)
+        else:
+            # every hash-seed case also carries the two workload kinds whose bytes involve namespace bindings
+            base = {"type": "ser", "phys": "TRIPLES", "share_options": False, "logical": 1, "delimited": True, "frame_size": 250,
+                    "preset": [16, 8, 8], "statements": [[["iri", "http://ex.org/s"], ["iri", "http://ex.org/p"], ["lit", "v", None, None]]],
+                    "bindings": [["ex", "http://ns-ex.example/"], ["a", "http://ns-a.example/x#"], ["zz", "http://ns-zz.example/"],
+                                 ["q", "http://ns-q.example/x#"], ["b", "http://ns-b.example/"]],
+                    "params": {"generalized": False, "rdf_star": False, "stream_name": "", "namespace_declarations": True}}
+            c["workloads"] = c["workloads"] + [dict(base, integration="generic", entry="stream_frames_sink"),
+                                               dict(base, integration="rdflib", entry="stream_frames_rdflib_graph")]
         v = body(c, acc)
         if v is not None and v.signature in known:
             acc.known_hits[v.signature] += 1
